@@ -7,6 +7,7 @@ import (
 	"encoding/base64"
 	"encoding/json"
 	"errors"
+	"fmt"
 	"math"
 	"math/rand"
 	"net/http"
@@ -19,6 +20,8 @@ import (
 	"time"
 
 	connect "github.com/bufbuild/connect-go"
+	"google.golang.org/protobuf/proto"
+	"google.golang.org/protobuf/types/known/structpb"
 	"github.com/bufbuild/connect-go/verifharness/refcodec"
 )
 
@@ -639,6 +642,97 @@ func runScalars(raw json.RawMessage, seed int64, rec *Rec) {
 		srv.Close()
 		rec.Add(E("result", "recv_ok", rerr == nil && m != nil && string(m.Value) == "greeting", "recv_late", recvMs > 2000,
 			"send_ok", serr == nil, "gave_up", gaveUp.Load()))
+	case "nested_e2e":
+		// C01 for messages that are not flat: sub-messages, repeated and map fields, oneofs (google.protobuf.Struct /
+		// ListValue / Value), fresh objects and one object modified between Sends, both directions
+		mk := func(tag string, n int) *structpb.ListValue {
+			inner, _ := structpb.NewStruct(map[string]any{"k": tag, "n": float64(n), "l": []any{tag, float64(n), nil, true}})
+			return &structpb.ListValue{Values: []*structpb.Value{
+				structpb.NewStringValue(tag), structpb.NewStructValue(inner), structpb.NewListValue(&structpb.ListValue{}),
+				structpb.NewNumberValue(float64(n)),
+			}}
+		}
+		same := true
+		note := ""
+		check := func(where string, got, want *structpb.ListValue) {
+			if !proto.Equal(got, want) {
+				same = false
+				if note == "" {
+					note = where
+				}
+			}
+		}
+		copts := clientProtoOpts(s.Proto)
+		var hopts []connect.HandlerOption
+		if s.Used == "gzip" {
+			copts = append(copts, connect.WithSendGzip())
+		} else {
+			hopts = append(hopts, connect.WithCompressMinBytes(1<<20))
+		}
+		mux := http.NewServeMux()
+		mux.Handle("/verif.v1.N/Unary", connect.NewUnaryHandler("/verif.v1.N/Unary", func(_ context.Context, r *connect.Request[structpb.ListValue]) (*connect.Response[structpb.ListValue], error) {
+			check("handler unary", r.Msg, mk("u", 1))
+			return connect.NewResponse(mk("ur", 2)), nil
+		}, hopts...))
+		mux.Handle("/verif.v1.N/Server", connect.NewServerStreamHandler("/verif.v1.N/Server", func(_ context.Context, r *connect.Request[structpb.ListValue], ss *connect.ServerStream[structpb.ListValue]) error {
+			check("handler server", r.Msg, mk("s", 3))
+			m := mk("s0", 0)
+			for i := 1; i <= 3; i++ { // one object, modified between Sends
+				m.Values[0] = structpb.NewStringValue(fmt.Sprintf("s%d", i))
+				m.Values[1].GetStructValue().Fields["n"] = structpb.NewNumberValue(float64(i))
+				if err := ss.Send(m); err != nil {
+					return err
+				}
+			}
+			return nil
+		}, hopts...))
+		mux.Handle("/verif.v1.N/Client", connect.NewClientStreamHandler("/verif.v1.N/Client", func(_ context.Context, cs *connect.ClientStream[structpb.ListValue]) (*connect.Response[structpb.ListValue], error) {
+			i := 0
+			for cs.Receive() {
+				i++
+				check("handler client", cs.Msg(), mk("c", i))
+			}
+			if i != 3 {
+				same, note = false, "handler client count"
+			}
+			return connect.NewResponse(mk("cr", i)), cs.Err()
+		}, hopts...))
+		tr := &memTransport{h: mux, major: 2}
+		ctx := context.Background()
+		ures, err := connect.NewClient[structpb.ListValue, structpb.ListValue](tr, "http://verif.test/verif.v1.N/Unary", copts...).CallUnary(ctx, connect.NewRequest(mk("u", 1)))
+		if err != nil {
+			same, note = false, "unary: "+err.Error()
+		} else {
+			check("client unary", ures.Msg, mk("ur", 2))
+		}
+		ss, err := connect.NewClient[structpb.ListValue, structpb.ListValue](tr, "http://verif.test/verif.v1.N/Server", copts...).CallServerStream(ctx, connect.NewRequest(mk("s", 3)))
+		if err != nil {
+			same, note = false, "server: "+err.Error()
+		} else {
+			i := 0
+			for ss.Receive() {
+				i++
+				want := mk("s0", 0)
+				want.Values[0] = structpb.NewStringValue(fmt.Sprintf("s%d", i))
+				want.Values[1].GetStructValue().Fields["n"] = structpb.NewNumberValue(float64(i))
+				check("client server", ss.Msg(), want)
+			}
+			if i != 3 || ss.Err() != nil {
+				same, note = false, fmt.Sprintf("server stream: %d messages, %v", i, ss.Err())
+			}
+			_ = ss.Close()
+		}
+		cs := connect.NewClient[structpb.ListValue, structpb.ListValue](tr, "http://verif.test/verif.v1.N/Client", copts...).CallClientStream(ctx)
+		for i := 1; i <= 3; i++ {
+			_ = cs.Send(mk("c", i)) // fresh objects
+		}
+		cres, err := cs.CloseAndReceive()
+		if err != nil {
+			same, note = false, "client: "+err.Error()
+		} else {
+			check("client client", cres.Msg, mk("cr", 3))
+		}
+		rec.Add(E("result", "same", same, "note", note))
 	case "errmeta_limit":
 		// a handler fails with metadata and a long message; the client's read limit is smaller than the error payload:
 		// whatever code the client reports, the handler's metadata is in the error (C11 "on failure at least in the
